@@ -40,7 +40,9 @@ EDGE_OPS = ["=", "!=", ">", "<", ">=", "<=", "===", "like", "=~", "between", "in
 def canon_parse(resp):
     if resp.startswith("ok "):
         return ("ok", json.loads(resp[3:]))
-    if resp.startswith("err msg") or resp.startswith("err unsupported"):
+    if resp.startswith("err unsupported"):
+        return ("unsupported",)           # the model abstains (e.g. `~` expansion of a root needs the user database)
+    if resp.startswith("err msg"):
         return ("err",)
     return (resp.split(" ")[0][:20],)
 
@@ -136,6 +138,8 @@ def run(ctx):
             ctx.hist("parse_outcome", b[0])
             if b[0] in ("panic", "hang", "died:-6", "died:-11") or b[0].startswith("died"):
                 ctx.oracle_fail("Parser::parse %s" % b[0], {"argv": argv, "kind": kind, "level": "in-process Parser::parse"})
+            elif a == ("unsupported",):
+                ctx.count("model_abstains")
             elif a != b:
                 ctx.disagree("parseQuery (model) = Parser::parse (implementation)", {"argv": argv}, str(a)[:400], str(b)[:400])
             if i < 3:
